@@ -192,7 +192,9 @@ def run_check(mod, tier, seed, jobs=None, replay_confirm=True):
         results = map(_worker, [(mod.__name__, s) for s in shards])
         pool = None
     else:
-        pool = ctx.Pool(jobs)
+        # one forked process per shard: a shard's outcome depends only on the shard (no memo state inherited from whatever
+        # shard the worker ran before), so re-running a shard in a fresh process reproduces it exactly
+        pool = ctx.Pool(jobs, maxtasksperchild=1)
         results = pool.imap_unordered(_worker, [(mod.__name__, s) for s in shards], chunksize=1)
     shard_walls = []
     for r in results:
@@ -372,6 +374,9 @@ def do_replay(mod, path, quiet=False):
             warnings.simplefilter("ignore")
             res = mod.run_shard(d["_shard"])
         same = [x for x in res.deviations if x["sig"] == d["sig"] and x["case"] == d["case"]]
+        if not same:
+            # (the per-shard cap may have kept other cases of the same signature this time)
+            same = [x for x in res.deviations if x["sig"] == d["sig"]]
         if same and not quiet:
             print(f"  (history-dependent: reproduces only after the earlier cases of shard {d['_shard']})")
     if same:
